@@ -879,4 +879,85 @@ example : wholeValidateT 4 64 true [64,97,10,65,10,43,10,73,10,64,98,10] = .ok (
     readValidateT 4 64 true .carry [64,97,10,65,10,43,10,73,10,10,13,10] 2 = none ∧
     readValidateT 4 64 true .seek [64,97,10,65,10,73,10] 5 = some 0 := by decide
 
+/-! ### files of ANY content: a truncated last record × every chunk size (uses C01.readAll_kLine_any_file) -/
+
+/-- the records that every reading delivers: the first `⌊lines/n⌋·n` lines of the terminated file -/
+def wholeRecords (n : Nat) (file : Bytes) : Bytes :=
+  (norm file).take (prefixThroughNL (countNL (norm file) - countNL (norm file) % n) (norm file))
+
+/-- **C15.readValidateT_any_file** — no hypothesis on the file (any violations, a last record cut anywhere): chunked
+reading with every chunk size and mode reports the first violation among the whole records; if there is none, it
+reports the truncated record at line `⌊lines/n⌋·n` when bytes other than line ends follow the whole records, and
+completes otherwise. The right-hand side mentions neither `k` nor the mode. -/
+theorem readValidateT_any_file (n : Nat) (hn : 0 < n) (marker : Nat) (cp : Bool) (hcp : cp = true → 2 < n)
+    (mode : Mode) (file : Bytes) (k : Nat) (hk : 0 < k) :
+    readValidateT n marker cp mode file k =
+      match validateChunk n marker cp (entriesOf n (wholeRecords n file)) with
+      | some l => some l
+      | none =>
+        if isBlank ((norm file).drop (wholeRecords n file).length) then none
+        else some (countNL (norm file) - countNL (norm file) % n) := by
+  obtain ⟨hflat, hcount, hall⟩ := readAll_kLine_any_file n hn mode file k hk
+  have hent : ((readAll (Fmt.kLine n) true mode file k).map (entriesOf n)).flatten = entriesOf n (wholeRecords n file) := by
+    unfold entriesOf wholeRecords
+    rw [entriesK_chunks n hn _ hall, hflat]
+  have hinv := reported_flatten_invariant n marker cp hcp [entriesOf n (wholeRecords n file)]
+    ((readAll (Fmt.kLine n) true mode file k).map (entriesOf n)) (by rw [hent]; simp) 0
+  rw [reported_single] at hinv
+  unfold readValidateT leftoverOf readValidate
+  rw [← hinv, hcount]
+  have hlen : (readAll (Fmt.kLine n) true mode file k).flatten.length = (wholeRecords n file).length := by
+    unfold wholeRecords; rw [hflat]
+  rw [hlen]
+  cases validateChunk n marker cp (entriesOf n (wholeRecords n file)) <;> rfl
+
+/-- **C15.chunk_size_independent_any_file** — the outcome of reading a FASTQ / two-line FASTA file — success, or the
+reported line — is the same for every two chunk sizes and reader modes, for EVERY file: any number of violations of
+any class, including a last record cut off anywhere. (`chunk_size_independent` assumed whole records.) -/
+theorem chunk_size_independent_any_file (n : Nat) (hn : 0 < n) (marker : Nat) (cp : Bool) (hcp : cp = true → 2 < n)
+    (file : Bytes) (m₁ m₂ : Mode) (k₁ k₂ : Nat) (h₁ : 0 < k₁) (h₂ : 0 < k₂) :
+    readValidateT n marker cp m₁ file k₁ = readValidateT n marker cp m₂ file k₂ := by
+  rw [readValidateT_any_file n hn marker cp hcp m₁ file k₁ h₁, readValidateT_any_file n hn marker cp hcp m₂ file k₂ h₂]
+
+/-- **C15.whole_eq_chunks_any_file** — `f.read()` and `read_chunks` with every chunk size and mode give the same
+outcome for every file that holds at least one record's worth of lines. -/
+theorem whole_eq_chunks_any_file (n : Nat) (hn : 0 < n) (marker : Nat) (cp : Bool) (hcp : cp = true → 2 < n) (mode : Mode)
+    (file : Bytes) (hc : n ≤ countNL (norm file)) (k : Nat) (hk : 0 < k) :
+    wholeValidateT n marker cp file = .ok (readValidateT n marker cp mode file k) := by
+  rw [readValidateT_any_file n hn marker cp hcp mode file k hk]
+  have hne : (norm file).isEmpty = false := by
+    cases h : norm file with
+    | nil => rw [h] at hc; simp [countNL] at hc; omega
+    | cons x xs => rfl
+  have hD : (norm file).take ((Fmt.kLine n).cutLen (norm file)) = wholeRecords n file := rfl
+  unfold wholeValidateT
+  simp only [hne, Bool.false_eq_true, ↓reduceIte, Nat.not_lt.mpr hc, hD]
+  have hcnt : countNL (wholeRecords n file) = countNL (norm file) - countNL (norm file) % n :=
+    whole_delivered_lines n hn (norm file) hc
+  rw [hcnt]
+  cases validateChunk n marker cp (entriesOf n (wholeRecords n file)) with
+  | some l => rfl
+  | none =>
+    simp only
+    split <;> rfl
+
+/-- **C15.truncated_line** — the headline case: all whole records valid, bytes other than line ends after them: every
+chunk size and mode reports line `⌊lines/n⌋·n`, the line where the truncated record starts; never a table. -/
+theorem truncated_line (n : Nat) (hn : 0 < n) (marker : Nat) (cp : Bool) (hcp : cp = true → 2 < n) (mode : Mode)
+    (file : Bytes) (k : Nat) (hk : 0 < k)
+    (hgood : validateChunk n marker cp (entriesOf n (wholeRecords n file)) = none)
+    (hleft : isBlank ((norm file).drop (wholeRecords n file).length) = false) :
+    readValidateT n marker cp mode file k = some (countNL (norm file) / n * n) := by
+  rw [readValidateT_any_file n hn marker cp hcp mode file k hk, hgood]
+  simp only [hleft, Bool.false_eq_true, ↓reduceIte]
+  have := Nat.div_add_mod (countNL (norm file)) n
+  have h2 : countNL (norm file) / n * n = n * (countNL (norm file) / n) := Nat.mul_comm _ _
+  congr 1
+  omega
+
+/-- non-vacuity of `truncated_line`: `@a/A/+/I/@b` -/
+example : validateChunk 4 64 true (entriesOf 4 (wholeRecords 4 [64,97,10,65,10,43,10,73,10,64,98,10])) = none ∧
+    isBlank ((norm [64,97,10,65,10,43,10,73,10,64,98,10]).drop (wholeRecords 4 [64,97,10,65,10,43,10,73,10,64,98,10]).length) = false := by
+  decide
+
 end C15
